@@ -281,3 +281,52 @@ Module Examples.
     intros H. apply (f_equal e_xc) in H. vm_compute in H. discriminate H.
   Qed.
 End Examples.
+
+(* ---- bundled for Props/C13.v ---- *)
+Theorem check_balance_respects_equiv f f' d posts posts' r r' :
+  map_equiv f f' -> Forall2 op_equiv posts posts' -> map_equiv r r' ->
+  out_equiv cb_equiv (check_balance f d posts r) (check_balance f' d posts' r') /\
+  (forall e e', check_balance f d posts r = Err e -> check_balance f' d posts' r' = Err e' ->
+                render_unbalanced e = render_unbalanced e' /\ render_err e = render_err e').
+Proof.
+  intros Hf Hp Hr. pose proof (check_balance_equiv f f' d posts posts' r r' Hf Hp Hr) as H.
+  split; [exact H|]. intros e e' E E'. rewrite E, E' in H. cbn [out_equiv] in H.
+  split; [apply render_unbalanced_equiv, H|apply render_err_equiv, H].
+Qed.
+
+Theorem reports_order_independent s s' : st_equiv s s' ->
+  (forall st en, render_balance (balance_report s st en) = render_balance (balance_report s' st en)) /\
+  render_register (all_postings s) = render_register (all_postings s') /\
+  (forall flt, render_register (postings_of s flt) = render_register (postings_of s' flt)).
+Proof.
+  intros H. split; [intros; apply stdout_balance_equiv, H|].
+  split; [apply (stdout_register_equiv s s' None H)|intros; apply stdout_register_equiv, H].
+Qed.
+
+Theorem error_text_order_independent :
+  (forall e e', err_equiv e e' -> render_err e = render_err e' /\ render_unbalanced e = render_unbalanced e') /\
+  (forall r r', run_equiv r r' -> stderr_of r = stderr_of r').
+Proof.
+  split; [|exact stderr_equiv]. intros e e' H. split; [apply render_err_equiv, H|apply render_unbalanced_equiv, H].
+Qed.
+
+Theorem st_equiv_equivalence :
+  (forall s s', st_equiv s s' -> st_equiv s' s) /\
+  (forall s1 s2 s3, st_equiv s1 s2 -> st_equiv s2 s3 -> st_equiv s1 s3) /\
+  st_equiv bstate0 bstate0 /\
+  (forall es s n, process es = (Ok s, n) -> st_equiv s s).
+Proof.
+  split; [exact st_equiv_sym|]. split; [exact st_equiv_trans|]. split; [exact st_equiv_init|exact processed_self].
+Qed.
+
+Theorem examples_exist :
+  exists es s s' f f' n,
+    process es = (Ok s, n) /\ s <> s' /\ st_equiv s s' /\
+    (exists e, process_from n s [e] = (Ok f, S n) /\ process_from n s' [e] = (Ok f', S n)) /\
+    f <> f' /\ st_equiv f f'.
+Proof.
+  exists (firstn 3 Examples.ledger), Examples.after3, Examples.after3', Examples.fin, Examples.fin', 3%nat.
+  split; [exact Examples.after3_reached|]. split; [exact Examples.after3_differ|].
+  split; [exact Examples.after3_equiv|]. split; [exists (ETxn Examples.t2); split; reflexivity|].
+  split; [exact Examples.fin_differ|apply Examples.fin_same_output].
+Qed.
